@@ -1,6 +1,7 @@
 /* Implementation of the runtime model (see cbmc_rt.h).  Included after the generated code. */
 
 uint64_t vf_inlog[VF_NLOG];
+uint64_t vf_trace_sum;
 unsigned vf_inlog_n;
 
 #ifndef VF_SEQ
@@ -41,7 +42,7 @@ int *vf_errno_location(void) { return &vf_errno_a[vf_tid]; }
 #ifdef VF_SEQ
 uint64_t vf_in_last; /* trace marker: every harness input, in consumption order */
 /* drawing an input is also a visible operation: the native replay hands out inputs in schedule order */
-static inline uint64_t vf_log_in(uint64_t v) { vf_vis_t = vf_tid; vf_in_last = v; return v; }
+static inline uint64_t vf_log_in(uint64_t v) { VF_VIS(vf_tid); vf_in_last = v; VF_TRACE_KEEP(vf_in_last); return v; }
 #else
 static inline uint64_t vf_log_in(uint64_t v) {
 #ifndef VF_NO_INLOG
@@ -49,6 +50,7 @@ static inline uint64_t vf_log_in(uint64_t v) {
   unsigned i = vf_inlog_n++;
   __CPROVER_assume(i < VF_NLOG);
   vf_inlog[i] = v;
+  VF_TRACE_KEEP(vf_inlog[i] ^ i);
   __CPROVER_atomic_end();
 #endif
   return v;
